@@ -9,17 +9,52 @@
 unsigned long tjv_hm_inits, tjv_hm_finals, tjv_hm_reinits;
 unsigned tjv_hm_upd, tjv_hm_open;
 unsigned long tjv_hm_finals_at_init;
+#ifdef TJV_PBKDF2
+const unsigned char *tjv_pw, *tjv_salt; size_t tjv_pwlen, tjv_saltlen; const unsigned char *tjv_hm_last_out;
+unsigned char tjv_acc, tjv_acc_prev; size_t tjv_gg;     /* ghost: XOR of the PRF chain at byte tjv_gg of the current block */
+#endif
+#ifdef TJV_HKDF
+const unsigned char *tjv_hkdf_prk, *tjv_hkdf_T, *tjv_hkdf_info; const unsigned char *tjv_hkdf_counter; size_t tjv_hkdf_infolen; unsigned char tjv_hkdf_n;
+#endif
 uint8_t tjv_hm_last4[4], tjv_hm_last1; int tjv_hm_have4, tjv_hm_have1;
 void tinyjambu_hmac_init(tinyjambu_hmac_state_t *state, const unsigned char *key, size_t keylen)
-{ (void)state; (void)key; (void)keylen; tjv_hm_inits++; tjv_hm_upd = 0; tjv_hm_open = 1; tjv_hm_finals_at_init = tjv_hm_finals; }
+{
+  (void)state; (void)key; (void)keylen; tjv_hm_inits++; tjv_hm_upd = 0; tjv_hm_open = 1; tjv_hm_finals_at_init = tjv_hm_finals;
+#ifdef TJV_PBKDF2
+  __CPROVER_assert(key == tjv_pw && keylen == tjv_pwlen, "C14: the PRF is keyed with the password");
+  tjv_acc_prev = tjv_acc;
+#endif
+#ifdef TJV_HKDF
+  __CPROVER_assert(key == tjv_hkdf_prk && keylen == 32, "C13: every block is an HMAC keyed with the 32-byte PRK");
+  tjv_hkdf_n = *tjv_hkdf_counter;
+#endif
+}
 void tinyjambu_hmac_reinit(tinyjambu_hmac_state_t *state, const unsigned char *key, size_t keylen)
-{ (void)state; (void)key; (void)keylen; tjv_hm_reinits++; tjv_hm_upd = 0; tjv_hm_open = 1; }
+{
+  (void)state; (void)key; (void)keylen; tjv_hm_reinits++; tjv_hm_upd = 0; tjv_hm_open = 1;
+#ifdef TJV_PBKDF2
+  __CPROVER_assert(key == tjv_pw && keylen == tjv_pwlen, "C14: every PRF of the chain is keyed with the password");
+#endif
+}
 void tinyjambu_hmac_update(tinyjambu_hmac_state_t *state, const unsigned char *in, size_t inlen)
 {
   (void)state;
   __CPROVER_assert(tjv_hm_open, "HMAC API: update on an initialised state");
   tjv_hm_upd++;
+#ifdef TJV_HKDF
+  { unsigned iT = (tjv_hkdf_n != 1) ? 1u : 0u;     /* RFC 5869: T(n) = HMAC(PRK, T(n-1) || info || n), no T(0) for n = 1 */
+    if (tjv_hm_upd == iT) __CPROVER_assert(in == tjv_hkdf_T && inlen == 32, "C13: T(n-1) is fed first (for n > 1)");
+    else if (tjv_hm_upd == iT + 1) __CPROVER_assert(in == tjv_hkdf_info && inlen == tjv_hkdf_infolen, "C13: then the caller's info string, whole");
+    else if (tjv_hm_upd == iT + 2) __CPROVER_assert(inlen == 1 && in[0] == tjv_hkdf_n, "C13: then the one-byte block number n");
+    else __CPROVER_assert(0, "C13: nothing else is fed into a block's HMAC"); }
+#endif
 #ifdef TJV_PBKDF2
+  if (tjv_hm_finals_at_init == tjv_hm_finals) {
+    if (tjv_hm_upd == 1) __CPROVER_assert(in == tjv_salt && inlen == tjv_saltlen, "C14: U_1 = PRF(P, salt || INT32BE(i)): the caller's salt first");
+    if (tjv_hm_upd > 2) __CPROVER_assert(0, "C14: nothing else is fed into U_1");
+  } else {
+    __CPROVER_assert(tjv_hm_upd == 1 && in == tjv_hm_last_out && inlen == 32, "C14: U_k = PRF(P, U_{k-1}): the previous PRF output is the only input");
+  }
   /* PBKDF2: the second update after init is the block number; it must be INT32BE(index of this block) */
   if (tjv_hm_upd == 2 && tjv_hm_finals_at_init == tjv_hm_finals) {
     unsigned long i = tjv_hm_inits;
@@ -34,6 +69,10 @@ void tinyjambu_hmac_finalize(tinyjambu_hmac_state_t *state, const unsigned char 
 {
   (void)state; (void)key; (void)keylen;
   __CPROVER_assert(tjv_hm_open, "HMAC API: finalize on an initialised state");
+#ifdef TJV_HKDF
+  __CPROVER_assert(tjv_hm_upd == ((tjv_hkdf_n != 1) ? 3u : 2u) && key == tjv_hkdf_prk && keylen == 32 && out == tjv_hkdf_T,
+                   "C13: T(n) = HMAC(PRK, T(n-1) || info || n) is stored as the state's current block");
+#endif
 #ifdef TJV_GHOST_OUT
   /* the digest may land directly in the caller's unbounded output buffer: modelled at the ghost index only */
   { extern size_t tjv_g_rel_to(const unsigned char *base); size_t g = tjv_g_rel_to(out);
@@ -41,6 +80,13 @@ void tinyjambu_hmac_finalize(tinyjambu_hmac_state_t *state, const unsigned char 
     if (g < 32) out[g] = nondet_u8(); }
 #else
   for (int i = 0; i < 32; i++) out[i] = nondet_u8();
+#endif
+#ifdef TJV_PBKDF2
+  __CPROVER_assert(key == tjv_pw && keylen == tjv_pwlen, "C14: PRF finalised with the password");
+  tjv_hm_last_out = out;
+#ifndef TJV_GHOST_OUT
+  if (tjv_hm_finals == tjv_hm_finals_at_init) tjv_acc = out[tjv_gg]; else tjv_acc ^= out[tjv_gg];
+#endif
 #endif
   tjv_hm_finals++; tjv_hm_open = 0;
 #ifdef TJV_PBKDF2
